@@ -203,9 +203,53 @@ func tokensTableBytesImpl(dir string, fields []frac.VerifField) (res string) {
 	return "ok " + vh.JoinStrs(blocks, "|") + " loaded=" + vh.B(fmtTable(tt) == fmtTable(loaded))
 }
 
+// tokensGetSeqImpl: a sequence of GetValByTID calls on ONE sealedTokenIndex over a real index file.
+func tokensGetSeqImpl(dir string, fields []frac.VerifField, tids []uint32) (res string) {
+	defer func() {
+		if r := recover(); r != nil {
+			res = "panic"
+		}
+	}()
+	f, err := os.CreateTemp(dir, "tokq-*.index")
+	if err != nil {
+		return "err " + err.Error()
+	}
+	defer func() { f.Close(); os.Remove(f.Name()) }()
+	w, err := frac.VerifNewIndexWriter(f)
+	if err != nil {
+		return "err " + err.Error()
+	}
+	if err := w.WriteInfo(); err != nil {
+		return "err " + err.Error()
+	}
+	if _, p, err := w.WriteTokens(fields, 1); p != "" || err != nil {
+		return "panic"
+	}
+	if err := w.Finish(); err != nil {
+		return "err " + err.Error()
+	}
+	reader := disk.NewIndexReader(readLimiter, f, cache.NewCache[[]byte](nil, nil))
+	ti := frac.VerifNewTokenIndex(&reader, newIndexCache())
+	out := make([]string, len(tids))
+	for i, tid := range tids {
+		v := "?"
+		func() {
+			defer func() { recover() }()
+			v = xh(ti.GetValByTID(tid))
+		}()
+		out[i] = v
+	}
+	return "ok " + vh.JoinStrs(out, ",")
+}
+
 func tokensAnswer(line, tmp string) (string, bool) {
 	f := strings.Fields(line)
 	switch {
+	case len(f) == 5 && f[0] == "tokens.getseq":
+		if f[1] != "16384" || f[2] != "1" {
+			return "err fixed block size / first block index", true
+		}
+		return tokensGetSeqImpl(tmp, parseTokFields(f[3]), parseU32s(f[4])), true
 	case len(f) == 5 && f[0] == "tokens.tablebytes":
 		if f[1] != "16384" || f[2] != "1" {
 			return "err fixed block size / first block index", true
@@ -255,6 +299,7 @@ func runTokenChannels(o vh.Opts, rng *vh.RNG, rep *vh.Report, tmp string) {
 	}
 	gen := vh.NewChannel("tokens.gen", "getTokensBlocksGenerator vs genTokenBlocks bsNew 16384: EXHAUSTIVE over fields of 1..4 tokens with sizes from {1, 5000, 9000, 17000} (thorough; quick samples 1/4) so that blocksCount is below, equal to and above the token count (the blockSize = 0 shape of the defect fixed in fb6d41d), two-field combinations, plus random dictionaries; compared block by block (field, isStartOfField, totalSizeOfField, startTID, tokens); non-trivial = some field is split into >= 2 blocks")
 	tab := vh.NewChannel("tokens.table", "writeTokensBlocks + writeTokenTableBlocks on a real index file, token.TableLoader (table re-loaded from the file must equal the table kept from sealing), BlockLoader + GetEntryByTID + GetValByTID for every tid vs writeTokens / getValByTID: table entries (StartIndex, StartTID, BlockIndex, ValCount, MinVal, MaxVal) and the value of every tid; same inputs; non-trivial = >= 2 physical blocks or >= 2 entries in one block")
+	seqc := vh.NewChannel("tokens.getseq", "SEQUENCES of sealedTokenIndex.GetValByTID calls on one index instance over a real index file (table + block loaders, caches) vs getValSeq (= the stateless per-TID answer): all TIDs ascending, all descending, random jumps, and neighbours back and forth across every entry / physical block boundary; same layouts as tokens.table; non-trivial = >= 2 table entries")
 	tbb := vh.NewChannel("tokens.tablebytes", "writeTokenTableBlocks (raw bytes of every token TABLE block of a real index file) and token.TableLoader (re-loaded table = table kept from sealing) vs packFieldBlock / writeTable / loadTable / keptField; same inputs as tokens.table incl. hundreds of small fields with long names (several table blocks over shared physical token blocks); non-trivial = >= 2 table blocks")
 	sizes := []int{1, 5000, 9000, 17000}
 	var layouts [][][][]byte
@@ -336,10 +381,41 @@ func runTokenChannels(o vh.Opts, rng *vh.RNG, rep *vh.Report, tmp string) {
 		gen.Add(line, impl, split, kind)
 		line = "tokens.table 16384 1 " + fmtTokFields(fs)
 		impl, _ = tokensAnswer(line, dir)
+		tabImpl := impl
 		tab.Add(line, impl, strings.Count(impl, ";") >= 1, kind)
 		pad := 0
 		if len(fs) > 100 {
 			pad = 40
+		}
+		// sequences of GetValByTID calls on one index instance: ascending, descending, around every entry boundary, random
+		ntok := 0
+		for _, fl := range fs {
+			ntok += len(fl)
+		}
+		if ntok > 0 && ntok <= 2000 {
+			var asc, desc, rnd, edges []uint32
+			for t := 1; t <= ntok; t++ {
+				asc = append(asc, uint32(t))
+				desc = append(desc, uint32(ntok+1-t))
+			}
+			for k := 0; k < 40; k++ {
+				rnd = append(rnd, uint32(rng.Range(1, ntok)))
+			}
+			for t := 1; t < ntok; t++ { // t, t+1, t, t+1: neighbours back and forth across every boundary
+				edges = append(edges, uint32(t), uint32(t+1), uint32(t), uint32(t+1))
+			}
+			if len(edges) > 600 {
+				st := rng.Intn(len(edges)-600) / 4 * 4
+				edges = edges[st : st+600]
+			}
+			for si, sq := range [][]uint32{asc, desc, rnd, edges} {
+				if len(asc) > 300 && si < 2 && !o.Thorough() && li%2 == 0 {
+					continue
+				}
+				line = fmt.Sprintf("tokens.getseq 16384 1 %s %s", fmtTokFields(fs), fmtU32s(sq))
+				impl, _ = tokensAnswer(line, dir)
+				seqc.Add(line, impl, strings.Count(tabImpl, ";") >= 1, kind, []string{"ascending", "descending", "random", "neighbours"}[si])
+			}
 		}
 		line = fmt.Sprintf("tokens.tablebytes 16384 1 %d %s", pad, fmtTokFields(fs))
 		impl, _ = tokensAnswer(line, dir)
@@ -350,6 +426,7 @@ func runTokenChannels(o vh.Opts, rng *vh.RNG, rep *vh.Report, tmp string) {
 	rep.AddChannel(gen, o.Driver)
 	rep.AddChannel(tab, o.Driver)
 	rep.AddChannel(tbb, o.Driver)
+	rep.AddChannel(seqc, o.Driver)
 
 	sel := vh.NewChannel("tokens.select", "token.Table.SelectEntries vs selectEntries: EXHAUSTIVE over hints of length 0..2 over {a,b}, MinVal and 1..3 sorted MaxVals of length 0..3 over {a,b} (thorough; quick samples 1/3), plus random byte strings; answer = the selected entry range; non-trivial = hint non-empty and >= 2 entries")
 	var words []string
